@@ -364,7 +364,14 @@ def run_impl(line, extra=None):
     """Execute one protocol line against the real code and return the canonical result line;
     reports arguments the call modified (see the shared-object cache above)."""
     del _USED[:]
-    out = _run_impl(line, extra)
+    try:
+        out = _run_impl(line, extra)
+    except (_Alarm, KeyboardInterrupt, SystemExit):
+        raise
+    except BaseException as e:  # noqa
+        # an operation whose handler calls the real function unguarded (inside every property's domain the pinned code
+        # does not raise there): a change that makes it raise is a result like any other, not a crash of the harness
+        out = "err " + err_name(e)
     modified = []
     for key, obj, enc in list(_USED):
         try:
@@ -503,8 +510,9 @@ def _run_impl(line, extra=None):
         return render(*guarded(call), fmt)
     if op == "dec":
         acc = s_acc(t[1]) if extra is None or "acc" not in extra else extra["acc"]
+        dtbl = s_tbl(t[2]) if extra is None or "tbl" not in extra else extra["tbl"]
         return render(*guarded(lambda: SW.decode(undash(t[4]), int(t[5]), acc, int(t[3]), is_faster=b(t[6]),
-                                                 vt_check=opt(t[7]), shuffles=s_tbl(t[2]))), enc_bits)
+                                                 vt_check=opt(t[7]), shuffles=dtbl)), enc_bits)
     if op == "vt":
         return render(*guarded(lambda: SW.set_vt(undash(t[1]), int(t[2]))), dash)
     if op == "rep":
